@@ -13,6 +13,7 @@ from __future__ import annotations
 
 from .. import backends as be
 from .. import term as tm
+from .. import symex as sx
 from ..symex import ArrV, ObjV
 from ..libmodels import Interp1dV
 from . import resv
@@ -95,6 +96,13 @@ def seq_replay(w):
         v = r_["violations"][0]
         return {"reproduced": True, "input": v.get("input"), "observed": v.get("observed"), "required": v.get("required"), "clause": v.get("clause")}
     return {"reproduced": False}
+
+
+_INTERP_FULL = None
+
+
+def interp_post_full(ctx):
+    return _INTERP_FULL()
 
 
 def build(ctx):
@@ -231,7 +239,26 @@ def build(ctx):
 
     obs.append(Obligation("recovery_factor.post", "recovery_factor(): result == RF(self.time, self.pseudopressure, mode) (flux: time integral of the three-point flux times the FVF scale; in place: 1 - mass/mass_0), independent of any cached value; it is stored as the cache and nothing else is written (the stored field is not modified through a view)", rf_post, [resv.RF], "CAS+FRAME", seq_replay))
 
-    def interp_post():
+    def interp_underlying(o):
+        """the interp1d object behind the value recovery_factor_interpolator() returns: the value itself, or - for a
+        wrapping callable - the single interpolant it evaluates on a symbolic query; returns (I, query map g with
+        F(q) = I(g(q))) or a refuting verdict"""
+        F = o.value
+        q = tm.var("q")
+        if isinstance(F, Interp1dV):
+            return F, q, None
+        if not isinstance(F, sx.FuncV):
+            return None, None, be.Verdict(be.REFUTED, "STRUCT", witness={}, detail=f"recovery_factor_interpolator returns {type(F).__name__}, not a callable over time")
+        outs = [x for x in ctx.engine.run_paths(F, [q]) if x.kind != "infeasible"]
+        if len(outs) != 1 or outs[0].kind != "return" or not isinstance(outs[0].value, tm.T):
+            raise sx.OutOfSubset(f"the returned callable has {len(outs)} paths on a scalar query")
+        val = outs[0].value
+        names = {nm: I_ for nm, I_ in o.heap["ghost"].get("interps", {}).items()}
+        if not (val.op == "app" and val.args[0] in names and len(val.args) == 2):
+            raise sx.OutOfSubset(f"the returned callable is not one interpolant applied to a function of the query: {val}")
+        return names[val.args[0]], val.args[1], None
+
+    def interp_post(state_only=True):
         last = None
         for cls in CLASSES:
             for cache in (False, True):
@@ -243,12 +270,18 @@ def build(ctx):
                     return [r], {}
 
                 outs = ctx.engine.run_paths(ctx.engine.func(resv.RFI), mk, pc=BASE)
-                if len(outs) != 1 or outs[0].kind != "return" or not isinstance(outs[0].value, Interp1dV):
+                if len(outs) != 1 or outs[0].kind != "return":
                     return be.Verdict(be.REFUTED, "STRUCT", witness={}, detail=f"recovery_factor_interpolator: {[(o.kind, o.value) for o in outs]}")
                 o = outs[0]
-                I = o.value
-                if I.xf(k) is not tm.app("t", [k]):
-                    return be.Verdict(be.REFUTED, "STRUCT", witness={}, detail="the interpolator is not built over the stored times")
+                I, gq, bad = interp_underlying(o)
+                if bad is not None:
+                    return bad
+                # C10 needs: abscissae are a function of the stored times only (C17 interp.nodes_and_fill decides WHICH function is admissible)
+                xk = I.xf(k)
+                if xk is not tm.app("t", [k]):
+                    foreign = [a for a in tm.apps(xk) if a.args[0] != "t"] + [v_ for v_ in tm.free_vars(xk) if v_ is not k]
+                    if foreign:
+                        return be.Verdict(be.REFUTED, "STRUCT", witness={}, detail=f"the interpolator's abscissae depend on more than the stored times: {foreign[:3]}")
                 if cache:
                     if I.yf(k) is not tm.app("old_rec", [k]):
                         return be.Verdict(be.REFUTED, "STRUCT", witness={}, detail="with a cached recovery (valid by cache_ok) the interpolator does not use it")
@@ -272,10 +305,66 @@ def build(ctx):
                     return be.Verdict(be.REFUTED, "STRUCT", witness={}, detail="fill value before the first time is not 0")
                 if I.fill_hi is not I.yf(tm.sub(nt, tm.const(1))):
                     return be.Verdict(be.REFUTED, "STRUCT", witness={}, detail="fill value after the last time is not the final recovery")
+                # frame: building the interpolator reads the state; with a cache it writes nothing, without one the only
+                # write is the cache that the inner recovery_factor() stores (so a repeated call sees the same state)
+                r = o.heap["args"][0]
+                wr = [w_ for w_ in r.writes]
+                if cache and (wr or r.fields.get("recovery") is None or r.fields["recovery"].get(k) is not tm.app("old_rec", [k])):
+                    return be.Verdict(be.REFUTED, "FRAME", witness={}, detail=f"recovery_factor_interpolator() modifies the object although a cached recovery exists: writes {wr}, cache {'kept' if r.fields.get('recovery') is not None else 'removed'} (a repeated call does not see the same state)")
+                if not cache and (any(w_ != ("set", "recovery") for w_ in wr) or "recovery" not in r.fields):
+                    return be.Verdict(be.REFUTED, "FRAME", witness={}, detail=f"recovery_factor_interpolator() without a cache: writes {wr}; expected only the cache stored by recovery_factor()")
+                if o.heap["ghost"].get("global_writes"):
+                    return be.Verdict(be.REFUTED, "FRAME", witness={}, detail="recovery_factor_interpolator() writes module-level state")
+                if not state_only:
+                    v = interp_semantics(o, I, gq, cls, cache)
+                    if v.status != be.PROVED:
+                        return with_models(v, o)
                 last = o
-        return with_models(be.Verdict(be.PROVED, "STRUCT", detail="x = stored times, y = cache or RF(current state), fill (0, last)"), last)
+        return with_models(be.Verdict(be.PROVED, "STRUCT", detail="x = function of the stored times, y = cache or RF(current state), fill (0, last)" + ("" if state_only else "; F(t_k) = recovery[k], F = 0 before t_0, F = recovery[-1] after t_last")), last)
 
-    obs.append(Obligation("interpolator.post", "recovery_factor_interpolator(): linear interpolant over (self.time, cache if present else recovery_factor() of the current state), 0 before the first time and the final recovery after the last", interp_post, [resv.RFI, resv.RF], "STRUCT", seq_replay))
+    def interp_semantics(o, I, gq, cls, cache):
+        """C17: with F(q) = I(g(q)):  F(t_k) == y_k for every k;  q < t_0 => F(q) == 0;  q > t_last => F(q) == y_last,
+        for every strictly increasing time grid (any sign, any origin), from the interp1d contract.  The contract's own
+        precondition - abscissae strictly increasing, so that the interpolant through (x_k, y_k) is well defined - is an
+        obligation here: it has to follow from the strict monotonicity of the stored times."""
+        q = tm.var("q")
+        one = tm.const(1)
+        n1 = tm.sub(nt, one)
+        T_ = lambda i: tm.app("t", [i])
+        k2 = tm.var("k2", tm.I)
+        inr = lambda i: tm.land(tm.le(tm.const(0), i), tm.lt(i, nt))
+        # hypothesis on the grid, instantiated where needed (strictly increasing: k < k2 => t_k < t_k2)
+        mono = lambda a, b_: tm.implies(tm.land(inr(a), inr(b_), tm.lt(a, b_)), tm.lt(T_(a), T_(b_)))
+        hyp = list(o.pc) + [tm.ge(nt, tm.const(2))]
+        # (0) library precondition: x strictly increasing
+        xs = lambda i: I.xf(i)
+        v = be.prove_smt(tm.implies(tm.land(inr(k), inr(k2), tm.lt(k, k2)), tm.lt(xs(k), xs(k2))), hyp + [mono(k, k2)], want={"t_k": T_(k), "t_k2": T_(k2), "x_k": xs(k), "x_k2": xs(k2)})
+        if v.status != be.PROVED:
+            v.detail = "interp1d precondition not established: the abscissae handed to interp1d are not strictly increasing for every strictly increasing time grid (several simulated times share one abscissa, so the interpolant cannot reproduce recovery at each of them): " + v.detail
+            return v
+        g = lambda arg: tm.subst(gq, {q: arg})
+        # (1) nodes: g(t_k) is the abscissa x_k, so I(g(t_k)) = y_k by the node axiom
+        v = be.prove_smt(tm.implies(inr(k), tm.eq(g(T_(k)), xs(k))), hyp, want={"t_k": T_(k)})
+        if v.status != be.PROVED:
+            v.detail = "the interpolator evaluated at a simulated time does not query its own node: " + v.detail
+            return v
+        # (2) outside: q < t_0 => g(q) < x_0 or (g(q) == x_0 and y_0 == 0);  q > t_last => g(q) > x_last or g(q) == x_last
+        x0, xl = xs(tm.const(0)), xs(n1)
+        y0_zero = I.fill_lo is I.yf(tm.const(0))
+        lo_goal = tm.implies(tm.lt(q, T_(tm.const(0))), tm.lt(g(q), x0))
+        v = be.prove_smt(lo_goal, hyp, want={"q": q, "t_0": T_(tm.const(0)), "g(q)": g(q), "x_0": x0})
+        if v.status != be.PROVED:
+            v.detail = "a query before the first simulated time is not mapped before the first abscissa (the value there is not the fill value 0): " + v.detail
+            return v
+        v = be.prove_smt(tm.implies(tm.gt(q, T_(n1)), tm.ge(g(q), xl)), hyp, want={"q": q, "t_last": T_(n1), "g(q)": g(q), "x_last": xl})
+        if v.status != be.PROVED:
+            v.detail = "a query after the last simulated time is not mapped to or after the last abscissa: " + v.detail
+            return v
+        return be.Verdict(be.PROVED, "SMT")
+
+    global _INTERP_FULL
+    _INTERP_FULL = lambda: interp_post(state_only=False)
+    obs.append(Obligation("interpolator.post", "recovery_factor_interpolator(): interpolant over (a function of self.time, cache if present else recovery_factor() of the current state), 0 before the first time and the final recovery after the last; it writes nothing except the cache stored by the inner recovery_factor()", interp_post, [resv.RFI, resv.RF], "STRUCT", seq_replay))
 
     def before():
         for cls in CLASSES:
@@ -301,6 +390,9 @@ def build(ctx):
         return be.Verdict(be.REFUTED, "FRAME", witness={}, detail="cache dropped (as it must be)")
 
     obs.append(Obligation("canary.frame", "CANARY (must be refuted): simulate() keeps the cached recovery", canary, [resv.SSIM], "FRAME", expect=be.REFUTED))
+    tp = resv.twophase_delegates(ctx)
+    tp.id = "dep." + tp.id
+    obs.append(tp)
     return obs
 
 
